@@ -644,6 +644,10 @@ func (r *chainRun) buildTx(n *Node, st *CStep) *lpb.Transaction {
 		tot.Add(tot, u.Amount)
 	}
 	to := Accts[abs(st.C)%nAcct]
+	toAddr := to.Addr
+	if abs(st.Via)%16 == 3 || (r.cfg.Prop == "C09" && abs(st.Via)%2 == 1) {
+		toAddr = XsimContract // fund the workload contract's own account
+	}
 	// amount: a fraction of the inputs
 	amt := new(big.Int).Mul(tot, big.NewInt(int64(1+abs(st.Amt)%4)))
 	amt.Div(amt, big.NewInt(5))
@@ -653,7 +657,12 @@ func (r *chainRun) buildTx(n *Node, st *CStep) *lpb.Transaction {
 	case 6:
 		amt = new(big.Int).Set(tot) // everything, no change
 	}
-	out := OutSpec{To: to.Addr, Amount: amt}
+	out := OutSpec{To: toAddr, Amount: amt}
+	if toAddr == XsimContract && amt.Cmp(big.NewInt(300)) > 0 {
+		// several small outputs so that contract transfers consume more than one
+		out.Amount = big.NewInt(50)
+		sp.Outs = append(sp.Outs, OutSpec{To: toAddr, Amount: big.NewInt(60)}, OutSpec{To: toAddr, Amount: big.NewInt(70)})
+	}
 	switch abs(st.Via) / 8 % 5 {
 	case 1:
 		out.Frozen = h + 1
